@@ -81,5 +81,26 @@ REG = {
     technique='Lean 4 proof over a model regenerated from source + differential correspondence',
     ref='§5-C15'),
 }
+REG['C16'] = dict(
+    text='Lean 4 theorems for every ordered field: per-character line confidences (CTC and transformer branch), letter '
+         'confidences, the run-wise line confidence, medians and bag posteriors/confidence (C03) are in [0,1] for posteriors in '
+         '[0,1]; the CTC computation is defined (every window non-empty) for every strictly increasing in-range alignment with no '
+         'bound on the number of frames; one-hot windows give exactly 1; the confident-line test is monotone in its threshold. '
+         'Over the reals: exp(log_softmax) sums to 1, lies in (0,1], and is invariant under a per-frame constant. Correspondence: '
+         'the probabilities the code itself computes are sent as exact dyadics, outputs agree within 1e-12.',
+    note='Trusted: Lean kernel + 3 standard axioms; NumPy/SciPy exp/log/logsumexp approximate the real functions (D4); medians via '
+         'np.quantile linear interpolation. Defect found and fixed: sentinel 1000 broke lines with > 1000 frames.',
+    technique='Lean 4 proof (range/definedness lemmas over ordered fields; softmax identities over R) + differential correspondence',
+    ref='§5-C16')
+REG['C19'] = dict(
+    text='Lean 4 theorems over the merge fold of merge_ocr_results.py: if some engine has positive mean confidence the merged '
+         'line takes transcription, logits, character table AND recorded confidence from the same engine, the first one attaining '
+         'the maximum; otherwise engine 0 is kept; ids and geometry always those of the first layout; self-merge changes nothing. '
+         'Correspondence on the real merge_layouts with in-memory layouts (different charsets, empty transcriptions, the 0.5 '
+         'fallback), confidences sent as exact dyadics.',
+    note='Trusted: Lean kernel + standard axioms; the per-engine mean character confidence is an input of the model (computed by '
+         'the real get_confidences; its range is C16).',
+    technique='Lean 4 proof (fold invariant: first strict maximum) + differential correspondence',
+    ref='§5-C19')
 REG.update(REG13)
 NOT_YET = {}
